@@ -24,7 +24,7 @@ RULE = (
     "case = a cell (torch function, operand order) drawn uniformly from the run-time tables _HANDLED_FUNCTIONS / "
     "_HANDLED_SECOND_ARG_FUNCTIONS x an operator recipe whose head class is drawn first (domain as the function needs: "
     "pd for logdet/solve/cholesky, psd for eigh/eigvalsh/svd/prod, triangular with positive diagonal for solve_triangular/"
-    "inverse, diagonal-like for abs/exp/log/sqrt, any otherwise; nesting<=2/3, sizes 1..5, batch kinds, f32/f64) x a call "
+    "inverse, diagonal-like for abs/exp/log/sqrt, any otherwise; one third of the cases target a class that DEFINES its own version of the registered method; nesting<=2 (quick) / 3 (thorough), sizes 1..6, batch kinds, f32/f64) x a call "
     "form (torch.f(..), infix operator, Tensor method) x second operand kind (Tensor, 0-dim Tensor, python scalar, other "
     "operator incl. instances of a subclass of the first operand's class) x generated valid arguments (dim, dims, upper, "
     "alpha, rtol/atol, offset/dim1/dim2); 20% of the cases call an UNREGISTERED function (fixed list + a sample of "
@@ -44,6 +44,17 @@ ASSUMPTIONS = [
     "C_DIRECT*n*u*n*|A| for sorted eigen/singular values; root-decomposition slack (tol.root_slack) for operator*operator "
     "and prod (defined through root decompositions)",
     "a 1-D operand is generated only against non-batched operators",
+    "ownership (blame): C15 owns the handler, the two tables, the argument handling / result conventions of the base-class "
+    "public methods and the subclass overrides OF THE REGISTERED METHODS. When torch.f and the method agree with each other "
+    "but not with the dense computation, the class does NOT override the registered method, and the very same call on "
+    "DenseLinearOperators holding the same matrices passes, the mismatch lives in a private hook (_transpose_nonbatch, "
+    "_diagonal, _sum_batch, _mul_matrix, _svd, ...) = the object of C01-C06/C14: counted (outcome:blamed_private_hook), "
+    "not raised",
+    "torch.f(opA, opB) with type(opB) a proper subclass of type(opA) is handed by torch to opB's handler (reflected "
+    "table): such calls are judged by the dense leg only (the result class may differ; opA's own method may even fail)",
+    "a constructor refusing generated arguments is counted (outcome:build_failed), never raised here (C01/C02 verdict)",
+    "operators containing a Mul node (and prod) are defined through jittered root decompositions: root-decomposition slack "
+    "as in C01, plus an absolute floor 1e-6*u*slack; Mul nodes are not generated for solve/logdet/factorization cells",
     "proposed findings (see FINDING_IDS) that are not yet in known_findings.json are treated as OPEN: the generator avoids "
     "exactly their triggers; a 'fixed:' status re-opens the cells",
     "whether an unregistered function reached the handler is observed by wrapping LinearOperator.__torch_function__ for the "
@@ -98,6 +109,7 @@ FINDING_IDS = {
     "constdiag_solve_triangular": "F-C15-constdiag-solve-triangular",
     "diag_solve_triangular_left": "F-C15-diag-solve-triangular-left",
     "transpose_same_dim": "F-C15-transpose-same-dim",
+    "tri_structured_solve": "F-C15-tri-structured-solve",
     "isclose_reversed_rtol": "F-C15-isclose-reversed-rtol",
     "diagonal_args_ignored": "F-C15-diagonal-args-ignored",
     "explog_offdiag": "F-C15-exp-log-offdiagonal",
@@ -303,10 +315,6 @@ def _scalar(draw, nonzero=False):
     return k / 8.0
 
 
-def _base(case_or_name):
-    return short(case_or_name).strip("_")
-
-
 def _forms(name, order):
     if name.startswith("torch.Tensor."):
         return ["func", "binop", "tmethod"]
@@ -430,7 +438,6 @@ def g_matmul(draw, name, order, depth, prefer=None):
 def g_isclose(draw, name, order, depth, prefer=None):
     r = _op(draw, "any", depth, prefer=prefer)
     shp = refmodel.shape(r)
-    dt = R.dtype_of(r)
     kw = {}
     u = draw(st.integers(0, 3))
     if u == 1:
@@ -534,9 +541,6 @@ def g_plain(draw, name, order, depth, prefer=None):
 NO_MUL = ("Mul",)  # elementwise products of operators are *defined* through (jittered) root decompositions: C02/C06
 
 
-ADDED_DIAG = ("AddedDiag", "LowRankRootAddedDiag", "KroneckerAddedDiag")
-
-
 def _pd_op(draw, depth, psd_ok=False, tri=True, extra=(), prefer=None):
     u = draw(st.integers(0, 9))
     ex = NO_MUL + tuple(extra)
@@ -553,6 +557,28 @@ def g_direct(draw, name, order, depth, prefer=None):
     fam = _family(name)
     kw = {}
     other = None
+    if fam in ("solve", "solve_triangular", "inverse") and is_open("tri_structured_solve"):
+        # the generator avoids Triangular(<structured operator>) in the solve-type cells while the finding is open
+        if prefer == "TriBase":
+            prefer = "TriT"
+        case = _g_direct(draw, name, order, depth, prefer, fam, kw, other, no_tribase=True)
+    else:
+        case = _g_direct(draw, name, order, depth, prefer, fam, kw, other, no_tribase=False)
+    return case
+
+
+def _g_direct(draw, name, order, depth, prefer, fam, kw, other, no_tribase):
+    global NO_MUL
+    saved = NO_MUL
+    if no_tribase:
+        NO_MUL = saved + ("TriBase",)
+    try:
+        return _g_direct_body(draw, name, order, depth, prefer, fam, kw, other)
+    finally:
+        NO_MUL = saved
+
+
+def _g_direct_body(draw, name, order, depth, prefer, fam, kw, other):
     if fam in ("logdet", "cholesky"):
         r = _pd_op(draw, depth, tri=(fam == "logdet"), prefer=prefer)
         if fam == "cholesky":
@@ -857,10 +883,6 @@ def _cmp(lib, ref, bound, what):
             "value",
             "%s: max |lib-ref|/bound = %.3g at flat index %d (lib=%r ref=%r)" % (what, float(ratio.reshape(-1)[i]), i, lib.reshape(-1)[i].item(), ref.reshape(-1)[i].item()),
         )
-
-
-class Ctx:
-    pass
 
 
 def _mk_other(o, dt, A):
@@ -1449,7 +1471,6 @@ def _check_unreg(case):
         labels.append("outcome:now_registered")
         out["nontrivial"] = False
         return out
-    dt = R.dtype_of(r)
     A = refmodel.dense(r)
     T64 = L.value(case["t"], F64)
     if not case.get("sampled"):
@@ -1513,8 +1534,18 @@ def gaps(labels):
             for cname, k in sorted(vars(O).items()):
                 if isinstance(k, type) and issubclass(k, LO) and k is not LO and mname in k.__dict__:
                     if not labels.get("ovr:%s|%s|%s.%s" % (name, order, k.__name__, mname)):
-                        out.append("subclass override never exercised: %s.%s via %s (%s argument)" % (k.__name__, mname, name, order))
+                        why = STRUCTURAL.get((k.__name__, mname), "")
+                        if k.__name__ not in CLASS_HEADS:
+                            why = " [class outside the recipe grammar]"
+                        out.append("subclass override never exercised: %s.%s via %s (%s argument)%s" % (k.__name__, mname, name, order, why))
     return out
+
+
+STRUCTURAL = {
+    ("ZeroLinearOperator", "solve"): " [no valid operand: the zero matrix is singular for torch.linalg.solve]",
+    ("ZeroLinearOperator", "logdet"): " [no valid operand in the generated domain (positive definite)]",
+    ("IdentityLinearOperator", "exp"): " [excluded while F-C15-identity-exp is open; covered by its witness]",
+}
 
 
 def _family_gaps():
@@ -1574,6 +1605,12 @@ def _t_diag_left(case):
     return gen.is_diag_instance(r) and r["op"] not in ("ConstantDiag", "Identity")
 
 
+def _t_tri_structured(case):
+    if case.get("kind") != "reg" or short(case["fn"]) not in ("solve", "solve_triangular", "inverse"):
+        return False
+    return any(n["op"] == "Tri" and "base" in n and n["base"]["op"] not in ("Dense", "KroneckerTri") for n in R.walk(case["recipe"]))
+
+
 def _t_transpose_same(case):
     if case.get("kind") != "reg" or short(case["fn"]) != "transpose":
         return False
@@ -1591,6 +1628,7 @@ TRIGGERS = {
     "constdiag_solve_triangular": _t_constdiag,
     "diag_solve_triangular_left": _t_diag_left,
     "transpose_same_dim": _t_transpose_same,
+    "tri_structured_solve": _t_tri_structured,
     "isclose_reversed_rtol": _t_isclose,
     "diagonal_args_ignored": _t_diagonal,
     "explog_offdiag": _t_explog,
